@@ -82,7 +82,7 @@ fn seq_history(plan: &SeqPlan, rep: &Report) -> Option<u64> {
             rep.inconclusive(&format!("sequential protocol could not be established: {msg}"));
             None
         }
-        Some(Ok((expected, displaced, log, overflows))) => {
+        Some(Ok((expected, displaced, log, overflows, stalled_mismatch))) => {
             let got: Vec<u64> = log.iter().filter_map(|e| e.id()).collect();
             let witness = |what: &str| {
                 json!({"what": what, "plan": format!("{plan:?}"),
@@ -108,6 +108,14 @@ fn seq_history(plan: &SeqPlan, rep: &Report) -> Option<u64> {
                 rep.violation("overflow-counter-mismatch", witness("metrique_queue_overflows != number of displaced entries"));
                 ok = false;
             }
+            if let Some((counter, discarded, appended)) = stalled_mismatch {
+                rep.violation(
+                    "overflow-counter-mismatch-while-writer-stalled",
+                    json!({"what": "writer completely stalled (blocked inside next() with one entry in hand), all appends of the burst returned: the overflow counter at the recorder differs from the number of entries discarded so far",
+                           "plan": format!("{plan:?}"), "counter_at_recorder": counter, "discarded_so_far": discarded, "appended_so_far": appended, "counter_after_shutdown": overflows}),
+                );
+                ok = false;
+            }
             rep.count("seq_entries_appended", (expected.len() as u64) + displaced);
             rep.count("seq_entries_displaced", displaced);
             if ok {
@@ -124,7 +132,8 @@ fn seq_history(plan: &SeqPlan, rep: &Report) -> Option<u64> {
     }
 }
 
-type SeqOut = Result<(Vec<u64>, u64, Vec<Ev>, u64), String>;
+/// (.., first (counter, displaced, appended) seen to disagree while the writer was stalled)
+type SeqOut = Result<(Vec<u64>, u64, Vec<Ev>, u64, Option<(u64, u64, u32)>), String>;
 
 fn seq_history_inner(plan: &SeqPlan, open_call: &AtomicU64) -> SeqOut {
     let sh = StreamShared::new(1);
@@ -145,6 +154,7 @@ fn seq_history_inner(plan: &SeqPlan, open_call: &AtomicU64) -> SeqOut {
     let mut displaced = 0u64;
     let mut seq = 0u32;
     let mut delivered_total = 0u64;
+    let mut stalled_mismatch: Option<(u64, u64, u32)> = None;
     let stall = default_stall();
     let append = |seq: &mut u32| -> u64 {
         let id = make_id(0, *seq);
@@ -173,6 +183,14 @@ fn seq_history_inner(plan: &SeqPlan, open_call: &AtomicU64) -> SeqOut {
                 displaced += 1;
             }
             ring.push_back(id);
+        }
+        // the writer is completely stalled (blocked in next() with one entry in hand) and every
+        // append of the burst has returned: the counter must already equal the discards
+        if in_hand.is_some() && stalled_mismatch.is_none() {
+            let now = counts.counter("metrique_queue_overflows");
+            if now != displaced {
+                stalled_mismatch = Some((now, displaced, seq));
+            }
         }
         // let exactly k' next calls complete (never more than what is available)
         let avail = in_hand.is_some() as u32 + ring.len() as u32;
@@ -203,7 +221,7 @@ fn seq_history_inner(plan: &SeqPlan, open_call: &AtomicU64) -> SeqOut {
     sh.open_all();
     drop(q);
     handle.shut_down();
-    Ok((expected, displaced, sh.log(), counts.counter("metrique_queue_overflows")))
+    Ok((expected, displaced, sh.log(), counts.counter("metrique_queue_overflows"), stalled_mismatch))
 }
 
 fn gen_seq_plan(rng: &mut Rng) -> SeqPlan {
